@@ -25,26 +25,91 @@ theorem expandOne_eq_scopes (c : Ctx) (ns : List VertexId) (opt : Bool) :
   congr 1
   split <;> rfl
 
+/-- The scopes an edge stage continues in, for every edge kind of the fragment. -/
+def edgeScopes (W : World) (e : IREdge) (v : Option VertexId) : List (Option VertexId) :=
+  match e.recursive with
+  | none => scopes e.optional v (W.D.nbrsOpt v e.name e.params)
+  | some r => recScopes W.D e r v
+
+theorem edgeScopes_none (W : World) (e : IREdge) : ∀ s ∈ edgeScopes W e none, s = none := by
+  intro s hs
+  unfold edgeScopes at hs
+  cases hr : e.recursive with
+  | none => simpa [hr, scopes, Data.nbrsOpt] using hs
+  | some r => simpa [hr, recScopes] using hs
+
+theorem reach_congr (D : Data) (n : Name) (ps1 ps2 : Params)
+    (h : ∀ y, D.nbrs y n ps1 = D.nbrs y n ps2) (k : Nat) (x : VertexId) :
+    Spec.reach D n ps1 k x = Spec.reach D n ps2 k x := by
+  induction k generalizing x with
+  | zero => rfl
+  | succ k ih =>
+    simp only [Spec.reach, h x]
+    congr 1
+    apply flatMap_congr''
+    intro y _
+    exact ih y
+where
+  flatMap_congr'' {α β : Type} {f g : α → List β} {l : List α} (h : ∀ x ∈ l, f x = g x) :
+      l.flatMap f = l.flatMap g := by
+    induction l with
+    | nil => rfl
+    | cons x xs ih =>
+      simp only [List.flatMap_cons, h x (List.mem_cons_self ..)]
+      rw [ih fun y hy => h y (List.mem_cons_of_mem _ hy)]
+
+theorem reach_no_nbrs (D : Data) (n : Name) (ps : Params) (k : Nat) (x : VertexId)
+    (h : D.nbrs x n ps = []) : Spec.reach D n ps k x = [x] := by
+  cases k with
+  | zero => rfl
+  | succ k => simp [Spec.reach, h]
+
+/-- The stage of any edge of the fragment, on one context. -/
+theorem stageO_scopes (W : World) (n : Name) (params : Params) (kind : Kind) (e : IREdge) (c : Ctx)
+    {fromV toV : IRVertex} (hk : EdgeKindOK W n params kind e)
+    (hf : W.comp.vertex? e.fromVid = some fromV) (ht : W.comp.vertex? e.toVid = some toV)
+    {v : Option VertexId} (h : c.vertexAt? e.fromVid = some v) (hact : v = none → c.active = none)
+    (h0 : enterVertex W.env W.comp toV [] = .ok []) :
+    ∃ c1, Ext c c1 [] ∧ stageO W e c =
+      flatMapO (fun s => (enterVertex W.env W.comp toV [{ c1 with active := s }]).toOption)
+        (edgeScopes W e v) := by
+  have hnonrec : e.recursive = none → ∃ c1, Ext c c1 [] ∧ stageO W e c =
+      flatMapO (fun s => (enterVertex W.env W.comp toV [{ c1 with active := s }]).toOption)
+        (edgeScopes W e v) := by
+    intro hrec
+    refine ⟨c, Ext.refl c, ?_⟩
+    rw [stageO_nonrec W e c hf ht hrec h h0, expandOne_eq_scopes, flatMapO_map]
+    simp only [edgeScopes, hrec]
+  cases kind with
+  | plain => exact hnonrec hk.2
+  | optional => exact hnonrec hk.2
+  | recurse d =>
+    obtain ⟨r, hrec, hd, hd1, hconv, _⟩ := hk
+    obtain ⟨c1, hext, hst⟩ := stageO_rec W e r c hf ht hrec h hact (by omega) hconv h0
+    exact ⟨c1, hext, by rw [hst]; simp only [edgeScopes, hrec]⟩
+  | fold fds => exact absurd hk (by simp [EdgeKindOK])
+
 theorem evalEdge_scopes (W : World) (fuel : Nat) (n : Name) (params : Params) (kind : Kind)
-    (child : QNode) (v : Option VertexId) (a : Asg) (e : IREdge) (hk : EdgeKindOK kind e)
+    (child : QNode) (v : Option VertexId) (a : Asg) (e : IREdge) (hk : EdgeKindOK W n params kind e)
     (hp : ParamsAgree W n params e.params) (hn : e.name = n) :
     (evalEdge W.senv fuel (ownersOf W.D v) n params kind child v a).toOption =
-      flatMapO (fun s => (evalNode W.senv fuel child s a).toOption)
-        (scopes e.optional v (W.D.nbrsOpt v e.name e.params)) := by
+      flatMapO (fun s => (evalNode W.senv fuel child s a).toOption) (edgeScopes W e v) := by
   have hns : specNbrs W.senv (ownersOf W.D v) n params v = W.D.nbrsOpt v e.name e.params := by
     cases v with
     | none => rfl
     | some x => simp only [specNbrs, ownersOf, Data.nbrsOpt, World.senv_data, hn]; exact hp x
   cases kind with
   | plain =>
-    obtain ⟨ho, _⟩ := hk
-    rw [evalEdge_plain_toOption, hns, ho]
+    obtain ⟨ho, hr⟩ := hk
+    rw [evalEdge_plain_toOption, hns]
+    simp only [edgeScopes, hr, ho]
     cases v with
     | none => simp [scopes, Data.nbrsOpt]
     | some x => simp [scopes, flatMapO_map]
   | optional =>
-    obtain ⟨ho, _⟩ := hk
-    rw [evalEdge_optional_toOption, hns, ho]
+    obtain ⟨ho, hr⟩ := hk
+    rw [evalEdge_optional_toOption, hns]
+    simp only [edgeScopes, hr, ho]
     by_cases hemp : (W.D.nbrsOpt v e.name e.params).isEmpty = true
     · have : W.D.nbrsOpt v e.name e.params = [] := by simpa using hemp
       simp [scopes, this]
@@ -53,7 +118,21 @@ theorem evalEdge_scopes (W : World) (fuel : Nat) (n : Name) (params : Params) (k
         | none => exact absurd rfl hemp
         | some x => rfl
       simp [scopes, hemp, hv, flatMapO_map]
-  | recurse d => exact absurd hk (by simp [EdgeKindOK])
+  | recurse d =>
+    obtain ⟨r, hrec, hd, hd1, hconv, hpr⟩ := hk
+    rw [evalEdge_recurse_toOption]
+    simp only [edgeScopes, hrec]
+    cases v with
+    | none => simp [recScopes]
+    | some x =>
+      simp only [recScopes, flatMapO_map]
+      have : reachDecl W.senv n params d x = Spec.reach W.D e.name e.params r.depth x := by
+        simp only [reachDecl, World.senv_data, hd, hn]
+        by_cases hx : W.D.nbrs x n e.params = []
+        · rw [reach_no_nbrs _ _ _ _ _ hx, reach_no_nbrs]
+          rw [hp x]; exact hx
+        · exact reach_congr _ _ _ _ (hpr x hx) d x
+      rw [this]
   | fold fds => exact absurd hk (by simp [EdgeKindOK])
 
 theorem vertexAt_record (c : Ctx) (vid : Vid) (hfresh : vid ∉ keys c) :
@@ -79,7 +158,7 @@ mutual
 theorem sim_node (W : World) : ∀ (node : QNode) (vid : Vid) (L : List Vid) (es : List IREdge)
     (vs : List Vid), NodeCert W node vid L es vs → ∀ (fuel : Nat), height node ≤ fuel →
     ∀ (c : Ctx), keys c = L → (L ++ vs).Nodup → (tagNames W (L ++ vs)).Nodup →
-    SimO W.abs (fun c' => Ext c c' vs) (nodeO W vid es c)
+    SimO W.abs (fun c' => Ext c c' vs ∧ (c.active = none → c'.active = none)) (nodeO W vid es c)
       (evalNode W.senv fuel node c.active (W.abs c)).toOption
   | .mk ct fields, vid, L, es, vs, hcert, fuel, hfuel, c, hk, hnd, htn => by
     unfold NodeCert at hcert
@@ -117,10 +196,10 @@ theorem sim_node (W : World) : ∀ (node : QNode) (vid : Vid) (L : List Vid) (es
       · simp only [R.toOption_ok, Option.map_some, boolCtx, Option.bind_some, if_true]
         have hrec := sim_fields W fields vid (L ++ [vid]) es vs' hF f hfuel' (Ctx.record c vid)
           c.active (by rw [(Ext.record c vid).keys, hk]) (vertexAt_record c vid hfresh)
-          (by simpa using hnd) (by simpa using htn)
+          (fun h => h) (by simpa using hnd) (by simpa using htn)
         refine hrec.mono ?_
         intro c' hc'
-        exact (Ext.record c vid).trans hc'
+        exact ⟨(Ext.record c vid).trans hc'.1, hc'.2⟩
       · exact SimO.none _ _
       · exact SimO.none _ _
     · simp only [hcoe, Bool.false_eq_true, if_false, Option.bind_some, runO_nil_ctx]
@@ -128,20 +207,21 @@ theorem sim_node (W : World) : ∀ (node : QNode) (vid : Vid) (L : List Vid) (es
 theorem sim_fields (W : World) : ∀ (fields : List QField) (vid : Vid) (L : List Vid)
     (es : List IREdge) (vs : List Vid), FieldsCert W fields vid L es vs →
     ∀ (fuel : Nat), heightFields fields ≤ fuel → ∀ (c : Ctx) (v : Option VertexId), keys c = L →
-    c.vertexAt? vid = some v → (L ++ vs).Nodup → (tagNames W (L ++ vs)).Nodup →
-    SimO W.abs (fun c' => Ext c c' vs) (runO W es [c])
+    c.vertexAt? vid = some v → (v = none → c.active = none) → (L ++ vs).Nodup →
+    (tagNames W (L ++ vs)).Nodup →
+    SimO W.abs (fun c' => Ext c c' vs ∧ (v = none → c'.active = none)) (runO W es [c])
       (evalFields W.senv fuel (ownersOf W.D v) fields v [W.abs c]).toOption
-  | [], vid, L, es, vs, hcert, fuel, _, c, v, _, _, _, _ => by
+  | [], vid, L, es, vs, hcert, fuel, _, c, v, _, _, hact, _, _ => by
     unfold FieldsCert at hcert
     obtain ⟨rfl, rfl⟩ := hcert
     simp only [runO, evalFields_nil, R.toOption_ok]
-    exact SimO.single _ (Ext.refl c)
-  | .prop n dirs :: rest, vid, L, es, vs, hcert, fuel, hfuel, c, v, hk, hv, hnd, htn => by
+    exact SimO.single _ ⟨Ext.refl c, hact⟩
+  | .prop n dirs :: rest, vid, L, es, vs, hcert, fuel, hfuel, c, v, hk, hv, hact, hnd, htn => by
     unfold FieldsCert at hcert
     rw [evalFields_prop]
     exact sim_fields W rest vid L es vs hcert fuel (by simpa [heightFields] using hfuel) c v hk hv
-      hnd htn
-  | .edge n params kind child :: rest, vid, L, es, vs, hcert, fuel, hfuel, c, v, hk, hv, hnd,
+      hact hnd htn
+  | .edge n params kind child :: rest, vid, L, es, vs, hcert, fuel, hfuel, c, v, hk, hv, hact, hnd,
       htn => by
     unfold FieldsCert at hcert
     obtain ⟨e, esC, esR, vsC, vsR, rfl, rfl, hfrom, hfromV, hname, hkind, hparams, hC, hR⟩ := hcert
@@ -156,15 +236,13 @@ theorem sim_fields (W : World) : ∀ (fields : List QField) (vid : Vid) (L : Lis
     have h0 : enterVertex W.env W.comp toV [] = .ok [] :=
       enterVertex_nil W e.toVid toV htoV htoVid L _ hflC
     obtain ⟨fromV, hfromV⟩ := Option.isSome_iff_exists.1 hfromV
-    have hrecNone : e.recursive = none := by
-      cases kind <;> simp_all [EdgeKindOK]
     -- interpreter side: the edge stage, then the child's stages, then the remaining siblings'
-    have hst := stageO_nonrec W e c (fromV := fromV) (toV := toV) (by rw [hfrom]; exact hfromV) htoV
-      hrecNone (by rw [hfrom]; exact hv) h0
+    obtain ⟨c1, hext1, hst⟩ := stageO_scopes W n params kind e c (fromV := fromV) (toV := toV) hkind
+      (by rw [hfrom]; exact hfromV) htoV (by rw [hfrom]; exact hv) hact h0
     have hI : runO W (e :: (esC ++ esR)) [c] =
-        (flatMapO (fun s => nodeO W e.toVid esC { c with active := s })
-          (scopes e.optional v (W.D.nbrsOpt v e.name e.params))).bind (runO W esR) := by
-      rw [runO_cons_single, hst, expandOne_eq_scopes, flatMapO_map]
+        (flatMapO (fun s => nodeO W e.toVid esC { c1 with active := s })
+          (edgeScopes W e v)).bind (runO W esR) := by
+      rw [runO_cons_single, hst]
       have : runO W (esC ++ esR) = fun cs => (runO W esC cs).bind (runO W esR) :=
         funext (runO_append W esC esR)
       rw [this]
@@ -181,18 +259,32 @@ theorem sim_fields (W : World) : ∀ (fields : List QField) (vid : Vid) (L : Lis
       exact (hl cs).symm
     rw [hI, evalFields_edge_toOption, flatMapO_singleton,
       evalEdge_scopes W fuel n params kind child v (W.abs c) e hkind hparams hname]
-    refine SimO.bind (ab := W.abs) (P := fun c' => Ext c c' vsC) ?_ ?_
+    refine SimO.bind (ab := W.abs) (P := fun c' => Ext c c' vsC ∧ (v = none → c'.active = none))
+      ?_ ?_
     · apply SimO.flatMapO
-      intro s _
-      exact sim_node W child e.toVid L esC vsC hC fuel hfC { c with active := s } hk hndC htnC
+      intro s hs
+      have hk1 : keys ({ c1 with active := s } : Ctx) = L := by
+        have := hext1.keys; simp only [List.append_nil] at this
+        rw [← hk, ← this]; rfl
+      have hsim := sim_node W child e.toVid L esC vsC hC fuel hfC { c1 with active := s } hk1 hndC htnC
+      have habs : W.abs ({ c1 with active := s } : Ctx) = W.abs c := hext1.abs W
+      rw [habs] at hsim
+      refine hsim.mono ?_
+      intro c' hc'
+      refine ⟨?_, ?_⟩
+      · have : Ext c c' ([] ++ vsC) := hext1.trans hc'.1
+        simpa using this
+      · intro hvn
+        subst hvn
+        exact hc'.2 (edgeScopes_none W e s hs)
     · intro cs' hcs'
       rw [runO_linear, evalFields_linear, flatMapO_map]
       apply SimO.flatMapO
       intro c' hc'
-      have hext := hcs' c' hc'
+      obtain ⟨hext, hactc'⟩ := hcs' c' hc'
       have hrec := sim_fields W rest vid (L ++ vsC) esR vsR hR fuel hfR c' v
-        (by rw [hext.keys, hk]) (hext.vertexAt hv) (by simpa using hnd) (by simpa using htn)
-      exact hrec.mono fun c'' h'' => hext.trans h''
+        (by rw [hext.keys, hk]) (hext.vertexAt hv) hactc' (by simpa using hnd) (by simpa using htn)
+      exact hrec.mono fun c'' h'' => ⟨hext.trans h''.1, h''.2⟩
 end
 
 end TF.InterpSpec
